@@ -4,7 +4,7 @@
 #include "erasure_code.h"
 
 static long nfail;
-#define NM 128
+#define NM 255
 
 /* run the real gf_invert_matrix on a copy; oracle: success <=> full rank, and original x result == I */
 static void inv_case(const uint8_t *m, int n, const char *family, uint64_t idx)
@@ -394,6 +394,38 @@ int main(int argc, char **argv)
 			m[(variant % n) * n + ((variant + 1) % n)] = 2;
 			m[((variant + 1) % n) * n + (variant % n)] = 3;
 			inv_case(m, n, "identity-perturbation", variant);
+		}
+	}
+	/* ---- wide matrices (n up to 255, the largest the API's char-sized dimensions allow): every cyclic shift as a scaled permutation
+	 * (the pivot of step i then sits exactly n - s rows below the diagonal: every search distance 1..n-1 occurs), plus dense and
+	 * rank-deficient ones ---- */
+	{
+		static const int wn[] = { 129, 130, 160, 200, 255 };
+		static uint8_t wm[NM * NM];
+		for (int wi = 0; wi < 5; wi++) {
+			int n = wn[wi];
+			for (int sft = 1; sft < n; sft += (v_thorough || n == 129 || n == 255 ? 1 : 7)) {
+				if (!v_mine(unit++))
+					continue;
+				if (nfail > 20 || v_deadline_hit())
+					break;
+				memset(wm, 0, (size_t)n * n);
+				for (int i = 0; i < n; i++)
+					wm[i * n + (i + sft) % n] = (uint8_t)(1 + (i * 29 + sft) % 255);
+				inv_case(wm, n, "wide-cyclic-shift", (uint64_t)n * 1000 + sft);
+				if (sft % 16 == 1) {
+					/* the same with one dense row, and with a duplicated row (singular) */
+					for (int j = 0; j < n; j++)
+						wm[(n - 1) * n + j] ^= (uint8_t)(j * 37 + sft);
+					inv_case(wm, n, "wide-cyclic-shift+dense-row", (uint64_t)n * 1000 + sft);
+					memcpy(wm + (size_t)(n / 2) * n, wm + (size_t)(n / 3) * n, n);
+					inv_case(wm, n, "wide-duplicate-row", (uint64_t)n * 1000 + sft);
+				}
+			}
+			if (v_mine(unit++)) {
+				fill_xorshift(wm, (size_t)n * n, 31337 + n);
+				inv_case(wm, n, "wide-dense-xorshift", n);
+			}
 		}
 	}
 	/* ---- generators: identity top block + documented formulas, for every (m,k), m <= 255 (cauchy also m = 256) ---- */
